@@ -62,5 +62,10 @@ func leftValueFixedBeforeRight(p *Program, r *Report, m *vmModel, va *evalAnalys
 			"every Elem() of the first operand precedes the evaluation of the second",
 			"the first operand is taken out of its interface at "+bad+", after the second operand was evaluated: an operand read from a list slot is that slot, and a second operand that assigns to it changes the first after the fact (`a[0] + step()` differs from the same expression over a variable)")
 	}
-	r.Floor(rule, n, 3)
+	// no instance floor: a handler that evaluates its operands through a helper of its own has no two evaluation events to
+	// order here (the helper takes each operand out of its interface right after evaluating it, or C20.R1 reports it)
+	r.Note(rule+" handlers with two operand evaluations of their own", n)
+	if n == 0 {
+		r.OK(rule, "operator handlers|no handler evaluates both operands itself", "vm", "the operator handlers evaluate their operands through helpers: nothing to order in the handlers")
+	}
 }
